@@ -877,7 +877,8 @@ def _tab_run(algo, env, table, eps, steps, seed, lr):
 def work_tabloop(item, col):
     algo, script, seed = item["algo"], item["script"], item["seed"]
     T = len(script)
-    for S, lr, rs in itertools.product((12, 3), (0.5, 1.0), range(item["nseeds"])):
+    lrs = (0.5,) if algo == "train_monte_carlo" else (0.5, 1.0)  # Monte Carlo has no learning rate
+    for S, lr, rs in itertools.product((12, 3), lrs, range(item["nseeds"])):
         run_seed = seed + rs
         cfg = dict(algo=algo, script=script, n_states=S, learning_rate=lr, seed=run_seed)
         # epsilon = 0: every executed action maximises the table held before that step
